@@ -261,8 +261,50 @@ theorem notification_notify (r : NotReg) :
     (notNotify r).2 = r.map (fun p => (p.2.1, p.1)) ∧ (notNotify r).1 = r.filter (fun p => !p.2.2) :=
   notNotify_spec r
 
+/-- `NotificationCenter` keyed on (object, message): `notify(obj, msg)` calls the listeners registered
+    for THAT pair, in registration order, each once; one-shot registrations of that pair are gone
+    afterwards; every other (object, message) pair keeps its registrations -/
+theorem notification_center_notify (c : NotCenter) (obj msg : Nat) (r : NotReg) (h : ncLookup c obj msg = some r) :
+    (ncNotify c obj msg).2 = r.map (fun p => (p.2.1, p.1)) ∧
+    ncLookup (ncNotify c obj msg).1 obj msg = some (r.filter fun p => !p.2.2) ∧
+    ∀ o' m', ¬ (o' = obj ∧ m' = msg) → ncLookup (ncNotify c obj msg).1 o' m' = ncLookup c o' m' := by
+  have e : ncNotify c obj msg = (ncSet c obj msg (r.filter fun p => !p.2.2), r.map (fun p => (p.2.1, p.1))) := by
+    simp [ncNotify, h, notNotify]
+  rw [e]
+  refine ⟨rfl, by rw [ncLookup_ncSet]; simp, ?_⟩
+  intro o' m' hne
+  rw [ncLookup_ncSet]; simp [hne]
+
+/-- `unregister(obj, msg, listener)` removes exactly that listener of that (object, message) pair —
+    also when it was the last one: the registrations of the object's OTHER messages (and of other
+    objects) stay -/
+theorem notification_unregister_local (c c' : NotCenter) (obj msg lst : Nat)
+    (h : ncUnregister c obj (some msg) (some lst) = some c') :
+    (∃ r, ncLookup c obj msg = some r ∧ ncLookup c' obj msg = some (r.filter (·.1 != lst))) ∧
+    ∀ o' m', ¬ (o' = obj ∧ m' = msg) → ncLookup c' o' m' = ncLookup c o' m' := by
+  unfold ncUnregister at h
+  cases hm : ncMsgs c obj with
+  | none => simp [hm] at h
+  | some ms =>
+    simp only [hm] at h
+    cases hf : ms.find? (·.1 == msg) with
+    | none => simp [hf] at h
+    | some p =>
+      obtain ⟨m0, r⟩ := p
+      simp only [hf] at h
+      split at h
+      · cases h
+        have hl : ncLookup c obj msg = some r := by simp [ncLookup, hm, hf]
+        refine ⟨⟨r, hl, by rw [ncLookup_ncSet]; simp⟩, ?_⟩
+        intro o' m' hne
+        rw [ncLookup_ncSet]; simp [hne]
+      · cases h
+
 /-! ## Non-vacuity -/
 
+-- two messages of one object: removing the last listener of message 0 keeps message 1's registration
+example : (ncUnregister (ncRegister (ncRegister [] 7 0 1 10 false) 7 1 2 11 false) 7 (some 0) (some 1)).bind
+    (fun c => ncLookup c 7 1) = some [(2, 11, false)] := by decide
 -- '/foo' does not match '/foobar'; '/f?o*' matches '/foobar'; '/[' is malformed and matches nothing
 example : oscMatch [47, 102, 111, 111] [47, 102, 111, 111, 98, 97, 114] = some false := by decide
 example : oscMatch [47, 102, 63, 111, 42] [47, 102, 111, 111, 98, 97, 114] = some true := by decide
